@@ -554,34 +554,24 @@ zif_open(const char *file)
 static inline int
 __find_trno(const struct zif_s z[static 1U], int32_t t, int min, int max)
 {
-/* find the last transition before T, T is expected to be UTC
- * if T is before any known transition return -1 */
-	if (UNLIKELY(max == 0)) {
-		/* special case */
-		return -1;
-	} else if (UNLIKELY(t < zif_trans(z, min))) {
-		return -1;
-	} else if (UNLIKELY(t > zif_trans(z, max))) {
-		return max - 1;
-	}
+/* find the last transition at or before T, T is expected to be UTC
+ * if T is before any known transition return -1
+ * MIN and MAX are merely hints from the cache, bisecting the lot is
+ * cheap enough and can't go wrong (or round in circles) */
+	int lo = 0;
+	int hi = (int)zif_ntrans(z);
 
-	do {
-		int32_t tl, tu;
-		int this = (min + max) / 2;
+	(void)min, (void)max;
+	while (lo < hi) {
+		const int mid = lo + (hi - lo) / 2;
 
-		tl = zif_trans(z, this);
-		tu = zif_trans(z, this + 1);
-
-		if (t >= tl && t < tu) {
-			/* found him */
-			return this;
-		} else if (t >= tu) {
-			min = this;
-		} else if (t < tl) {
-			max = this;
+		if (zif_trans(z, mid) <= t) {
+			lo = mid + 1;
+		} else {
+			hi = mid;
 		}
-	} while (true);
-	/* not reached */
+	}
+	return lo - 1;
 }
 
 DEFUN inline int
@@ -602,26 +592,24 @@ __find_zrng(const struct zif_s z[static 1U], int32_t t, int min, int max)
 	int trno;
 
 	trno = __find_trno(z, t, min, max);
-	res.prev = zif_trans(z, trno);
-	if (UNLIKELY(trno <= 0 && t < res.prev)) {
+	if (UNLIKELY(trno < 0)) {
+		/* before the first transition (or there's none at all)
+		 * it's local time type 0 then */
 		res.trno = 0U;
 		res.prev = INT_MIN;
-		/* assume the first offset has always been there */
-		res.next = res.prev;
-	} else if (UNLIKELY(trno < 0)) {
-		/* special case where no transitions are recorded */
-		res.trno = 0U;
-		res.prev = INT_MIN;
-		res.next = INT_MAX;
-	} else {
-		res.trno = (uint8_t)trno;
-		if (LIKELY(trno + 1U < zif_ntrans(z))) {
-			res.next = zif_trans(z, trno + 1U);
-		} else {
-			res.next = INT_MAX;
-		}
+		res.next = zif_ntrans(z) ? zif_trans(z, 0) : INT_MAX;
+		res.offs = z->tda[0U].offs;
+		return res;
 	}
-	res.offs = zif_troffs(z, res.trno);
+	res.prev = zif_trans(z, trno);
+	/* only a hint, the slot is too small for some zones */
+	res.trno = (uint8_t)trno;
+	if (LIKELY(trno + 1U < zif_ntrans(z))) {
+		res.next = zif_trans(z, trno + 1);
+	} else {
+		res.next = INT_MAX;
+	}
+	res.offs = zif_troffs(z, trno);
 	return res;
 }
 
